@@ -23,7 +23,8 @@ REQUIRED_THEOREMS = [
     'Properties.C04.flow_sample_and_log_prob_consistent', 'Properties.C04.flow_sample_and_log_prob_consistent_noctx',
     'Properties.C04.dist_sample_and_log_prob_pairing', 'Properties.C04.tagged_pairing',
     'Properties.C04.sample_event_probability_1d', 'Properties.C04.sample_cdf_1d', 'Properties.C04.pushforward_density_1d',
-                     'Properties.C04.flow_samples_follow_logprob', 'Properties.C04.flow_samples_follow_logprob_on', 'Properties.C04.conditional_flow_samples_follow_logprob', 'Properties.C04.flow_block_follows_conditional_density', 'Properties.C04.rq_flow_salp_consistent']
+                     'Properties.C04.flow_samples_follow_logprob', 'Properties.C04.flow_samples_follow_logprob_on', 'Properties.C04.conditional_flow_samples_follow_logprob', 'Properties.C04.flow_block_follows_conditional_density', 'Properties.C04.rq_flow_salp_consistent',
+    "Properties.C04.flowSalpExec_pairing", "Properties.C04.flowSalpExec_consistent",]
 RULE = ("(a) tagged: Flow(tag transform, tag base[, tag embedding]) and the default Distribution.sample_and_log_prob on integer-tagged "
         "tensors for R in 1..5 context rows (and none) x n in 1..7 x embedding on/off x {sample_and_log_prob, sample}; every output "
         "entry decodes to (noise draw, context row) pairs compared exactly with the Lean model; (b) seeded: every flow configuration "
